@@ -655,4 +655,19 @@ func run(c *vf.Ctx) {
 		}
 	}
 	bt.validate(c, "converged")
+
+	// ---- the same rules over real links (reader, writer, send queues), with bursts of frames from either end
+	rl := &batch{}
+	for k := 0; k < c.Pick(1, 6); k++ {
+		evs, desc := realLinks(c, rng, 200+100*k)
+		if evs == nil {
+			continue
+		}
+		rl.starts = append(rl.starts, len(rl.events))
+		rl.desc = append(rl.desc, desc)
+		rl.events = append(rl.events, evs...)
+		c.Distinct(fmt.Sprintf("real-links|%d", k))
+		c.Logf("R-links: bursts of %d frames from either end of a line of four: %v crossings recorded (%v frames, at most %v each)", 200+100*k, desc["crossings_of_burst_frames"], desc["burst_frames_that_crossed_a_link"], desc["most_crossings_of_one_frame"])
+	}
+	rl.validate(c, "real-links")
 }
